@@ -17,7 +17,8 @@ PROP = 'C03'
 LEVEL = 'exploration'
 RULE = ('random signatures over primitives, arrays (up to 12 items, two-digit indices), nested objects and arrays of objects; '
         'query strings from the reference flattener x permutations of the pairs x {contiguous, sparse} indices x hier_delim {., /, :} x '
-        'strict_arrays x validator {None, soft}; non-trivial = function entered with a non-null argument; distinct by '
+        'strict_arrays x validator {None, soft}; plus a ragged-array workload (all 343 member-subset combinations over three array items, '
+        'random member subsets over 2/4/11/12 items, top-level and nested arrays, strict_arrays on and off); non-trivial = function entered with a non-null argument; distinct by '
         '(configuration, argument shapes, permutation class, index class).')
 ASSUMPTIONS = [
     'POST form bodies need werkzeug, which is not installed: only GET query strings are driven',
@@ -32,7 +33,11 @@ SHARD_TIMEOUT = {'quick': 900, 'thorough': 3000}
 def shards(tier, seed):
     n = 16 if tier == 'quick' else 48
     per = 3 if tier == 'quick' else 10
-    return [{'shard': 'u%d' % i, 'tier': tier, 'seed': seed, 'first': i * per, 'count': per} for i in range(n)]
+    out = [{'shard': 'u%d' % i, 'tier': tier, 'seed': seed, 'first': i * per, 'count': per} for i in range(n)]
+    # ragged arrays of objects: every combination of member subsets over three items, strict_arrays on and off
+    for part in range(4):
+        out.append({'shard': 'ragged%d' % part, 'mode': 'ragged', 'part': part, 'tier': tier, 'seed': seed})
+    return out
 
 
 def universe(seed, uid):
@@ -318,14 +323,96 @@ def primitive_returns(R, ir, rng, seed, uid, tier):
             R.nontrivial('primitive_return', kind, gen.vclass(v))
 
 
+RAGGED_NS = 'urn:vf:c03r'
+
+
+def ragged_ir():
+    I = lambda: {'prim': 'Integer', 'facets': {}}
+    U = lambda: {'prim': 'Unicode', 'facets': {}}
+    T = lambda name, fields: {'name': name, 'ns': RAGGED_NS, 'base': None, 'has_xmldata': False, 'fields': fields}
+    types = [T('Leaf', [['a', I()], ['b', U()], ['c', I()]]),
+             T('Item', [['alpha', I()], ['beta', U()], ['inner', {'ref': 'Leaf'}], ['nums', {'seq': I(), 'max': 'unbounded'}]]),
+             T('Holder', [['items', {'array': {'ref': 'Item'}}], ['more', {'seq': {'ref': 'Item'}, 'max': 'unbounded'}], ['name', U()]])]
+    M_ = lambda name, args: {'name': name, 'args': args, 'returns': [], 'style': 'wrapped'}
+    return {'uid': 9000, 'tns': RAGGED_NS, 'types': types, 'services': [{'name': 'S', 'methods': [
+        M_('m_arr', [['p', {'array': {'ref': 'Item'}}]]), M_('m_seq', [['p', {'seq': {'ref': 'Item'}, 'max': 'unbounded'}]]),
+        M_('m_holder', [['o', {'ref': 'Holder'}]]), M_('m_two', [['o', {'ref': 'Holder'}], ['q', {'array': {'ref': 'Leaf'}}]])]}]}
+
+
+def ragged_item(mask, i):
+    """an Item carrying exactly the members selected by the bits of mask"""
+    it = {'__class__': 'Item'}
+    if mask & 1:
+        it['alpha'] = 100 + i
+    if mask & 2:
+        it['beta'] = 'b%d' % i
+    if mask & 4:
+        it['inner'] = {'__class__': 'Leaf', 'c': 300 + i} if i % 2 else {'__class__': 'Leaf', 'a': 200 + i, 'b': 'x'}
+    if mask & 8:
+        it['nums'] = [i, i + 1]
+    return it
+
+
+def run_ragged(R, spec):
+    ir = ragged_ir()
+    rng = core.rng_for(spec['seed'], PROP, spec['shard'])
+    tier = spec['tier']
+    mds = {m['name']: m for m in ir['services'][0]['methods']}
+    cases = []
+    masks = range(1, 8)
+    for combo in itertools.product(masks, repeat=3):
+        cases.append(('m_arr', [[ragged_item(m, i) for i, m in enumerate(combo)]]))
+    for n in (2, 4, 11, 12):
+        for _ in range(6 if tier == 'quick' else 40):
+            items = [ragged_item(rng.randint(1, 15), i) for i in range(n)]
+            which = rng.choice(('m_arr', 'm_seq', 'm_holder', 'm_two'))
+            if which in ('m_arr', 'm_seq'):
+                cases.append((which, [items]))
+            else:
+                h = {'__class__': 'Holder', 'items': items, 'name': 'h'}
+                if rng.random() < .5:
+                    h['more'] = [ragged_item(rng.randint(1, 15), 50 + i) for i in range(rng.randint(1, 3))]
+                args = [h]
+                if which == 'm_two':
+                    args.append([{'__class__': 'Leaf', 'c': 1}, {'__class__': 'Leaf', 'a': 2}, {'__class__': 'Leaf', 'b': 'z', 'a': 3}])
+                cases.append((which, args))
+    cases = [c for i, c in enumerate(cases) if i % 4 == spec['part']]
+    for delim, strict in (('.', True), ('.', False), ('/', True)):
+        for validator in (None, 'soft'):
+            B, app, wsgi = make_app(ir, delim, strict, validator)
+            for ci, (mname, args) in enumerate(cases):
+                if (ci + (validator is None)) % 2 and tier == 'quick':
+                    continue
+                md = mds[mname]
+                sparse = (not strict) and ci % 3 == 0
+
+                def indices(n, rng=rng, sparse=sparse):
+                    return list(range(n)) if not sparse else sorted(rng.sample(range(0, 40), n))
+                pairs = refflat.request_pairs(ir, md, args, delim, indices)
+                perms = permutations_of(rng, pairs, tier)
+                perms = [perms[0]] + rng.sample(perms[1:], min(len(perms) - 1, 2 if tier == 'quick' else 8))
+                for pi, perm in enumerate(perms):
+                    R.count('ragged_requests')
+                    one_get(R, B, wsgi, ir, md, args, perm, dict(seed=spec['seed'], uid=9000, part=spec['part'], case=ci, delim=delim, strict=strict,
+                                                                   validator=validator, sparse=sparse, perm=pi), pairs)
+
+
 def run(spec, R):
+    if spec.get('mode') == 'ragged':
+        run_ragged(R, spec)
+        for k in REQUIRED_COUNTERS:
+            R.count(k, 0)
+        return
     for uid in range(spec['first'], spec['first'] + spec['count']):
         run_universe(R, spec['seed'], uid, spec['tier'])
 
 
 def replay(v, R):
     c = v['repro']
-    run_universe(R, c['seed'], c['uid'], 'thorough')
+    if c.get('uid') == 9000:
+        run_ragged(R, {'seed': c['seed'], 'shard': 'ragged%d' % c['part'], 'part': c['part'], 'tier': 'thorough', 'mode': 'ragged'})
+    else:
+        run_universe(R, c['seed'], c['uid'], 'thorough')
     for x in R.violations[:10]:
         print('replayed:', x.get('mech'), x.get('what')[:300])
 
